@@ -137,9 +137,22 @@ func runFaultSet(t *testing.T, tape *Tape, w *World, variant string, steps int, 
 	descID := 0
 	firedBy := map[int]int{}
 	added := map[int]fsDesc{}
+	// swarm: in most runs everything concerns one operation, so that its descriptor list is
+	// long enough for prune's compaction to move live entries past a concurrent matcher
+	oneOp := tape.Bool(60)
+	opOf := func() string {
+		if oneOp {
+			return "A"
+		}
+		return []string{"A", "B"}[tape.Intn(2)]
+	}
 	mkDesc := func() fsDesc {
 		descID++
-		return fsDesc{id: descID, op: []string{"A", "B"}[tape.Intn(2)], params: fsParams(tape, 2), count: int64(tape.Intn(5))}
+		cnt := int64(tape.Intn(5))
+		if oneOp && tape.Bool(50) {
+			cnt = 1 // exhausted by its first match: prune work while others are matching
+		}
+		return fsDesc{id: descID, op: opOf(), params: fsParams(tape, 2), count: cnt}
 	}
 	toFault := func(d fsDesc) faults.Description {
 		id := d.id
@@ -149,6 +162,9 @@ func runFaultSet(t *testing.T, tape *Tape, w *World, variant string, steps int, 
 	}
 	// some descriptions exist before the race
 	pre := tape.Intn(3)
+	if oneOp {
+		pre = tape.Intn(7)
+	}
 	for i := 0; i < pre; i++ {
 		d := mkDesc()
 		set.Add(toFault(d))
@@ -175,7 +191,7 @@ func runFaultSet(t *testing.T, tape *Tape, w *World, variant string, steps int, 
 				added[d.id] = d
 				plan = append(plan, planned{fsIn{kind: "add", desc: d}})
 			} else {
-				plan = append(plan, planned{fsIn{kind: "check", op: []string{"A", "B"}[tape.Intn(2)], params: fsParams(tape, 3)}})
+				plan = append(plan, planned{fsIn{kind: "check", op: opOf(), params: fsParams(tape, 3)}})
 			}
 		}
 		c.spawn(fmt.Sprintf("caller%d", ci), func(ctx context.Context) {
@@ -359,6 +375,84 @@ func runFaultSetE2E(t *testing.T, tape *Tape, w *World, out *runOutcome) {
 		out.v = viol("C18", "listing", "unexpected DeleteTopic fault listed")
 	}
 	_ = errors.New
+	if out.v == nil {
+		out.v = faultSetStreams(w, ev, stats)
+	}
+}
+
+// faultSetStreams: the same guarantee on the streaming interceptor. A fault on
+// StreamingPull:RecvMsg with parameter subscription=A and count 3 must fail exactly the frames
+// that name A (the first frame of a stream on A), never a frame of a stream on B, whatever was
+// received on other streams just before.
+func faultSetStreams(w *World, ev func(string, ...any), stats map[string]int) *Violation {
+	ctx0 := context.Background()
+	subA, subB := "projects/f/subscriptions/sa", "projects/f/subscriptions/sb"
+	for _, x := range []struct{ s, t string }{{subA, "projects/f/topics/a"}, {subB, "projects/f/topics/b"}} {
+		if _, err := w.Call(ctx0, "CreateSubscription", &pubsubpb.Subscription{Name: x.s, Topic: x.t}); err != nil {
+			if code(err) == codes.Unavailable {
+				return nil // an injected fault of the first phase is still armed for this call: skip
+			}
+			panic("HARNESS: " + err.Error())
+		}
+	}
+	w.Faults.Add(faults.Description{Operation: "StreamingPull:RecvMsg", Parameters: map[string]string{"subscription": subA}, Count: 3, FaultDescription: "R",
+		OnFault: func(faults.Description, faults.Parameters) error { return status.Error(codes.Unavailable, "injected") }})
+	type strm struct {
+		in   chan *pubsubpb.StreamingPullRequest
+		done chan struct{}
+		err  error
+	}
+	open := func(sub string) *strm {
+		st := &strm{in: make(chan *pubsubpb.StreamingPullRequest, 4), done: make(chan struct{})}
+		fs := &fakeStream{ctx: ctx0, in: st.in, sent: func(*pubsubpb.StreamingPullResponse) {}}
+		go func() {
+			defer close(st.done)
+			st.err = w.StreamingPull(fs)
+		}()
+		st.in <- &pubsubpb.StreamingPullRequest{Subscription: sub, StreamAckDeadlineSeconds: 10, MaxOutstandingMessages: 10}
+		S.Settle()
+		return st
+	}
+	ended := func(st *strm) bool {
+		select {
+		case <-st.done:
+			return true
+		default:
+			return false
+		}
+	}
+	a1 := open(subA)
+	if !ended(a1) || code(a1.err) != codes.Unavailable {
+		return viol("C18", "e2e_stream_exact_count", "first frame of a stream on %s (matching the injected RecvMsg fault) was not failed: ended=%v err=%v", subA, ended(a1), a1.err)
+	}
+	b := open(subB)
+	if ended(b) {
+		return viol("C18", "e2e_stream_non_matching_failed", "the first frame of a stream on %s was failed by a fault injected for %s: %v", subB, subA, b.err)
+	}
+	a2 := open(subA)
+	if !ended(a2) || code(a2.err) != codes.Unavailable {
+		return viol("C18", "e2e_stream_exact_count", "second matching first frame was not failed: ended=%v err=%v", ended(a2), a2.err)
+	}
+	// an ack-only frame on B, right after a frame naming A was received on another stream
+	b.in <- &pubsubpb.StreamingPullRequest{AckIds: []string{"00000000-0000-0000-0000-000000000001"}}
+	S.Settle()
+	if ended(b) {
+		return viol("C18", "e2e_stream_non_matching_failed", "an ack-only frame on the stream of %s was failed by the fault injected for %s: %v", subB, subA, b.err)
+	}
+	close(b.in)
+	S.Settle()
+	left := int64(-1)
+	for _, d := range w.Faults.Current()["StreamingPull:RecvMsg"] {
+		if d.FaultDescription == "R" {
+			left = d.Count
+		}
+	}
+	if left != 1 {
+		return viol("C18", "listing", "StreamingPull:RecvMsg fault fired twice out of 3 but Current() reports %d left (-1 = not listed)", left)
+	}
+	ev("stream phase: 2 matching frames failed, 2 non-matching frames passed, 1 left")
+	stats["fs_stream_phase"]++
+	return nil
 }
 
 func init() { engines["faultset"] = runFaultSet }
